@@ -12,7 +12,7 @@ from verif.specs import sx
 from verif.specs.sx import X
 
 LEVEL = 'other'
-EXPECTED_MIN = {'quick': 2, 'thorough': 2}
+EXPECTED_MIN = {'quick': 3, 'thorough': 3}
 EXPLANATION = ('PROVED: contact.get hands the collision routine, for every geom, the world pose  x_link o geom_local  (position x.pos + R(x.rot) geom_pos, orientation matrix '
                'R(x.rot * geom_quat)) for ALL link poses and geom offsets, with geoms of the world body left at their local pose (index -1 = appended identity); each contact is '
                'attributed to links geom_bodyid[geom] - 1 and gets the mean of the two geoms\' elasticities, for ANY contact list returned by the collision routine.  BOUNDED (not '
@@ -262,8 +262,174 @@ def bounded(tier):
                     'signed distance vs closed form, normal direction, link_idx, elasticity', run, backend='bounded', kind='bounded', budget=1800)
 
 
+# ---------------------------------------------------------------------------------------------------------------------------------
+# per-geom elasticity from the MJCF <custom> block: mjcf._get_custom (Engine P on the real function, proxy MjModel)
+
+def _custom_mj(ngeom, nbody, numerics, tuples):
+  """proxy MjModel for _get_custom: `numerics` = [(name, size)], `tuples` = [(name, objtype, [objid...])].
+  numeric_data is symbolic; the parameters of a tuple are symbolic when a numeric of the same name exists (the base array the code overrides is then an
+  object array), otherwise distinct concrete markers 2000.25 + k: the base array is then numpy float storage, which cannot hold a proxy -- the code only moves them."""
+  import types
+  import z3
+  from verif.engine import pathexec as px
+  names = b''
+  nadr, tadr = [], []
+  for nm, _ in numerics:
+    nadr.append(len(names))
+    names += nm.encode() + b'\x00'
+  for nm, _, _ in tuples:
+    tadr.append(len(names))
+    names += nm.encode() + b'\x00'
+  nsz = [s for _, s in numerics]
+  nad = list(np.cumsum([0] + nsz)[:-1])
+  tsz = [len(o) for _, _, o in tuples]
+  tad = list(np.cumsum([0] + tsz)[:-1])
+  ntot, ttot = int(sum(nsz)), int(sum(tsz))
+  ndata = px.symarr('num', (ntot,))
+  tprm = px.symarr('prm', (ttot,))
+  have = {nm for nm, _ in numerics}
+  k = 0
+  for nm, _, o in tuples:
+    for _ in o:
+      if nm not in have:
+        tprm[k] = 2000.25 + k
+      k += 1
+  return types.SimpleNamespace(
+      names=names, name_numericadr=np.array(nadr, dtype=int), numeric_size=np.array(nsz, dtype=int), numeric_adr=np.array(nad, dtype=int), numeric_data=ndata,
+      name_tupleadr=np.array(tadr, dtype=int), tuple_adr=np.array(tad, dtype=int), tuple_size=np.array(tsz, dtype=int),
+      tuple_objtype=np.array([t for _, t, o in tuples for _ in o], dtype=int), tuple_objid=np.array([i for _, _, o in tuples for i in o], dtype=int), tuple_objprm=tprm,
+      nbody=nbody, ngeom=ngeom, nq=nbody - 1)
+
+
+def _custom_configs(tier):
+  """(ngeom, numeric kind for 'elasticity', tuple geom ids or None, extra unrelated numerics/tuples)"""
+  out = []
+  sizes = (1, 2, 3) if tier == 'quick' else (1, 2, 3, 4)
+  for ng in sizes:
+    for kind in ('none', 'scalar', 'vector'):
+      subsets = [None, ()]
+      ids = list(range(ng))
+      subsets += [(g,) for g in ids] + ([tuple(ids)] if ng > 1 else []) + ([tuple(reversed(ids))] if ng > 1 else [])
+      if ng >= 3:
+        subsets += [(0, 2), (2, 0, 2)]
+      for sub in subsets:
+        if kind == 'vector' and ng == 1:
+          continue                 # a 1-vector is the scalar case
+        out.append((ng, kind, sub))
+  return out
+
+
+def _expected_elasticity(ng, kind, sub, num, prm):
+  """spec: tuple parameter for the geoms a tuple names (the last entry for a geom wins), else the per-geom numeric, else the scalar numeric, else 0"""
+  base = {'none': lambda g: 0.0, 'scalar': lambda g: num[0], 'vector': lambda g: num[g]}[kind]
+  want = [base(g) for g in range(ng)]
+  for k, g in enumerate(sub or ()):
+    want[g] = prm[k]
+  return want
+
+
+def custom_elasticity(tier):
+  def run():
+    import z3
+    from brax.io import mjcf
+    from verif.engine import pathexec as px
+    cfgs = _custom_configs(tier)
+    npaths = nchecks = 0
+    for (ng, kind, sub) in cfgs:
+      # an unrelated scalar numeric and an unrelated per-body numeric sit around the elasticity entries, so that address arithmetic matters
+      numerics = [('baumgarte_erp', 1)] + ([('elasticity', 1 if kind == 'scalar' else ng)] if kind != 'none' else []) + [('constraint_stiffness', 2)]
+      tuples = [('constraint_ang_damping', 1, [1])] + ([('elasticity', 5, list(sub))] if sub else [])
+      noff = 1
+      toff = 1
+      # the base array of a tuple override is a float array when no numeric of that name exists: then the tuple parameters are concrete distinct markers
+      # (the code only moves them), symbolic otherwise
+      sym = not (kind == 'none' and sub)
+
+      def call():
+        return mjcf._get_custom(_custom_mj(ng, 3, numerics, tuples))['elasticity']
+      try:
+        paths = px.explore(call, catch=(Exception,))
+      except (px.PathBudget, px.ProxyLimit) as ex:
+        return Result(UNDECIDED, 'path exploration: %s' % ex)
+      npaths += len(paths)
+      nsz = 1 if kind == 'scalar' else ng
+      num = [z3.Real('num_%d' % (noff + i)) for i in range(nsz)] if kind != 'none' else []
+      prm = ([z3.Real('prm_%d' % (toff + k)) for k in range(len(sub))] if sym else [z3.RealVal(str(Fraction(2000.25 + toff + k))) for k in range(len(sub))]) if sub else []
+      want = _expected_elasticity(ng, kind, sub, num, prm)
+      for p in paths:
+        # the only admissible exception is the range check on the (unrelated, unconstrained) scale fields -- not reachable here because they keep their defaults
+        if p.outcome != 'return':
+          return Result(REFUTED, '_get_custom raises %r for ngeom=%d numeric=%s tuple=%s' % (p.exc, ng, kind, sub), witness={'ngeom': ng, 'numeric': kind, 'tuple': list(sub or ())},
+                        replay=_native_custom(ng, kind, sub))
+        val = np.asarray(p.value, dtype=object)
+        if val.shape != (ng,):
+          return Result(REFUTED, 'elasticity has shape %s, expected (%d,) [ngeom=%d numeric=%s tuple geoms=%s]' % (val.shape, ng, ng, kind, sub),
+                        witness={'ngeom': ng, 'numeric': kind, 'tuple': list(sub or ())}, replay=_native_custom(ng, kind, sub))
+        for g in range(ng):
+          nchecks += 1
+          got = px.E(val[g])
+          w = want[g] if isinstance(want[g], z3.ExprRef) else z3.RealVal(str(Fraction(float(want[g]))))
+          if z3.is_int(got):
+            got = z3.ToReal(got)
+          v, m = px.valid(p.pc, got == w)
+          if v == 'refuted':
+            return Result(REFUTED, 'elasticity[%d] = %s, expected %s [ngeom=%d numeric=%s tuple geoms=%s]' % (g, got, w, ng, kind, sub),
+                          witness={'ngeom': ng, 'numeric': kind, 'tuple': list(sub or ()), 'model': str(m)[:400]}, replay=_native_custom(ng, kind, sub), solver_output=str(m)[:1000])
+          if v != 'proved':
+            return Result(UNDECIDED, 'z3 unknown on elasticity[%d]' % g)
+    if nchecks == 0:
+      return Result(ERROR, 'no output component checked (vacuous)')
+    return Result(PROVED, '%d custom-block layouts (ngeom <= %d; numeric none/scalar/per-geom x tuple subsets incl. repeated and reversed ids), %d paths of the real _get_custom, %d component checks'
+                  % (len(cfgs), max(c[0] for c in cfgs), npaths, nchecks), stats={'layouts': len(cfgs), 'paths': npaths, 'queries': nchecks})
+  return Obligation('C10/mjcf._get_custom/elasticity', 'brax.io.mjcf:_get_custom', 'the per-geom elasticity table has exactly ngeom entries; entry g is the <tuple name="elasticity"> parameter of geom g '
+                    'when a tuple names it (last entry wins), else the g-th value of a per-geom <numeric>, else the scalar <numeric>, else the default 0 -- for ALL numeric values, '
+                    'with unrelated custom entries around it', run, backend='path', budget=300)
+
+
+def _custom_xml(ng, kind, sub, num, prm):
+  geoms = ''.join('<body name="b%d" pos="%d 0 1"><freejoint/><geom name="g%d" type="sphere" size="0.1"/></body>' % (g, g, g) for g in range(ng))
+  cust = '<numeric name="baumgarte_erp" data="0.2"/>'
+  if kind != 'none':
+    cust += '<numeric name="elasticity" data="%s"/>' % ' '.join('%r' % v for v in num)
+  if sub:
+    cust += '<tuple name="elasticity">%s</tuple>' % ''.join('<element objtype="geom" objname="g%d" prm="%r"/>' % (g, prm[k]) for k, g in enumerate(sub))
+  return '<mujoco><custom>%s</custom><worldbody>%s</worldbody></mujoco>' % (cust, geoms)
+
+
+def _native_custom(ng, kind, sub):
+  """the same layout as a real MJCF document through mjcf.loads (MuJoCo compiler + load_model): sys.elasticity vs the expected per-geom values"""
+  from brax.io import mjcf
+  num = [0.125 * (i + 1) for i in range(1 if kind == 'scalar' else ng)] if kind != 'none' else []
+  prm = [0.5 + 0.0625 * (k + 1) for k in range(len(sub or ()))]
+  xml = _custom_xml(ng, kind, sub, num, prm)
+  want = _expected_elasticity(ng, kind, sub, num, prm)
+  try:
+    got = np.asarray(mjcf.loads(xml).elasticity, dtype=float).reshape(-1)
+  except Exception as ex:      # noqa: BLE001
+    return {'reproduced': True, 'xml': xml, 'raised': repr(ex)[:300]}
+  bad = got.shape != (ng,) or bool(np.any(np.abs(got - np.asarray(want, dtype=float)) > 1e-6))
+  return {'reproduced': bad, 'xml': xml, 'sys.elasticity': got.tolist(), 'expected': [float(w) for w in want]}
+
+
+def bounded_custom(tier):
+  def run():
+    n = 0
+    for (ng, kind, sub) in _custom_configs('quick' if tier == 'quick' else 'thorough'):
+      if tier == 'quick' and ng == 3 and kind == 'scalar':
+        continue
+      r = _native_custom(ng, kind, sub)
+      n += 1
+      if r['reproduced']:
+        return Result(REFUTED, 'mjcf.loads: sys.elasticity %s, expected %s (ngeom=%d numeric=%s tuple geoms=%s)' % (r.get('sys.elasticity', r.get('raised')), r.get('expected'), ng, kind, sub),
+                      witness={'xml': r['xml']}, replay=r)
+    return Result(PROVED, 'bounded: %d MJCF documents through the MuJoCo compiler and load_model: sys.elasticity = configured per-geom values' % n, stats={'evaluations': n, 'distinct_nontrivial': n})
+  return Obligation('C10/bounded/custom_elasticity_loads', 'brax.io.mjcf:loads (load_model, _get_custom)', 'BOUNDED: real MJCF documents with scalar / per-geom <numeric name="elasticity"> and '
+                    '<tuple name="elasticity"> overrides: the loaded sys.elasticity lists the configured value of every geom (ties the proxy fields of the proved clause to the MuJoCo compiler output)',
+                    run, backend='bounded', kind='bounded', budget=600)
+
+
 def obligations(tier):
-  obs = [geom_pose(), link_elasticity(), bounded(tier)]
+  obs = [geom_pose(), link_elasticity(), custom_elasticity(tier), bounded(tier), bounded_custom(tier)]
 
   def canary():
     from verif.engine.opaque import cut
